@@ -319,6 +319,24 @@ class C17CtlProj(ControlProjector):
         return None
 
 
+class C18Proj(ProxyProjector):
+    """panics only: a command that returns by panicking, a request whose handler panics"""
+    def ev(self, e):
+        return e if 'panic' in e else None
+
+    def interesting(self, kind, op, evs):
+        return any(e.startswith('cmd ') or e.startswith('done') for e in evs)
+
+
+class C18CtlProj(ControlProjector):
+    """sequential histories: does the command panic (every command in every reachable state, restarts included)"""
+    def step(self, kind, op, a, b):
+        self.track(kind, op, a, b)
+        if kind in COMMANDS:
+            return ('panic' in a), ('panic' in b), True
+        return None
+
+
 def proxy(projector, n_quick=160, n_thorough=20000):
     return dict(engine='proxy', n_quick=n_quick, n_thorough=n_thorough, projector=projector, quick_shards=4)
 
@@ -395,6 +413,11 @@ class MwOnlyProj:
         if kind in ('reqmw', 'respmw'):
             return a, b, True
         return None
+
+
+def _soak_extra(run):
+    from checklib import soak_engine
+    return soak_engine.soak_extra(run)
 
 
 def cli_extra(run):
@@ -504,6 +527,25 @@ PROPS = {
                      "ends on resume, stop or a timer."),
     'C09': dict(engines=[proxy(C09Proj)], assumptions=PROXY_ASSUME,
                 rule=RULE_PROXY + "Compared for C09: exactly which target serves each request and every probe sent. Non-trivial = a request is served by a target."),
+    'C18': dict(
+        engines=[proxy(C18Proj), control(C18CtlProj, 120, 4000)], extra=_soak_extra,
+        rule="(a) tie T1: /verif/verifx re-extracts from /repo, on every run, the lockset of every access to a field of the shared types, "
+             "the locks that may be held at every blocking operation and every operation that can panic by itself; KamalProxy.Tie.C18 "
+             "re-proves over these tables that every field written after publication is guarded by one lock (listed exceptions aside), that "
+             "lock acquisitions respect one rank order, that nothing else blocks under a lock and that the panic sites are the discharged ones; "
+             "(b) engine proxy (controlled schedules) and engine control (sequential histories incl. restarts): a command or request handler "
+             "that panics where the model does not; (c) engine soak: uncontrolled runs on real goroutines of a race-enabled build - 3-5 "
+             "command goroutines (deploy with host/path/TLS/buffering variety, rollout deploy/set/stop, pause, stop, resume, remove, list), "
+             "6-11 client goroutines (plain, cookie-bearing, POST, upgraded/hijacked through a real http.Server), probe flips every 4 ms, "
+             "3 ms probe interval - watching for race-detector reports, panics and operations blocked for more than 5 s. Non-trivial = every case.",
+        assumptions=["the lockset tables come from a syntactic walk (verifx): lock helpers, deferred unlocks and closures passed to the lock helpers "
+                     "are understood; a lock passed around as a value, or taken through an interface, would be missed - the soak cross-checks",
+                     "fields accessed by reflection (encoding/json) are invisible to the extractor; the race-enabled soak covers them",
+                     "channel operations, atomics and WaitGroup joins order accesses too; only locks are modelled, so fields ordered by those "
+                     "appear as listed exceptions (Target.healthcheck) and are argued in DESIGN.md",
+                     "nil-pointer dereferences are not enumerated as panic sites"],
+        trusted_extra=["/verif/verifx (go/packages + go/types walk producing Generated/Facts.lean)", "the Go race detector (dynamic cross-check only)"],
+    ),
     'C17': dict(engines=[proxy(C17Proj), control(C17CtlProj, 120, 4000)], assumptions=PROXY_ASSUME + ["real elapsed time (scheduler latency, file I/O, lock contention) is outside the "
                 "model: the virtual clock measures only what the code waits for"],
                 rule=RULE_PROXY + "Compared for C17: the virtual time at which every command returns and every probe sent (so probes after "
